@@ -31,8 +31,11 @@ def q_value(pre, selfv, d):
 
 
 def child_fill(x, d, w, cond=None):
-    v = core.vfill(x.view, d, w)
-    return CChild(v if cond is None else z3.If(cond, v, x.view))
+    def one(c):
+        v = CChild(core.vfill(c.view, d, w))
+        return v if cond is None else CIte(cond, v, c)
+
+    return specs.lift(one)(x)
 
 
 def may_raise(st, K, pre, selfv, d, w):
